@@ -43,6 +43,10 @@ KIND_ERRORS.update({
                         'single hit at position 0 counts as "nothing found"',
     'isin_set': 'np.isin / np.in1d receives a set (or dict view): numpy treats it as one object, so no element is ever found in it',
 })
+KIND_ERRORS.update({
+    'groupby_overwrite': 'a mapping is built from itertools.groupby over an input that is not sorted by the key: groupby only groups consecutive items, '
+                         'so with interleaved keys every later run overwrites the earlier one (the result depends on the order of the items)',
+})
 EUCLID_QUERY = 'nearest neighbours are searched with a non-periodic tree (plain Cartesian distances): pairs that are close across a cell face are missed'
 ALL_ERRORS = {**KIND_ERRORS, **STRICT_ERRORS}
 
